@@ -163,6 +163,7 @@ func run(r *core.Run) {
 	runImports(r)
 	runHandles(r)
 	runRotateTool(r)
+	runSys(r)
 	r.Exhaustive = true
 	// generated histories (structured stream)
 	n := r.N(4, 150)
